@@ -63,7 +63,7 @@ impl TryFrom<&ctehexml::CtehexmlData> for Model {
         let cons = cons_from_bdl(bdl, &id_maps)?;
         let spaces = spaces_from_bdl(bdl, &id_maps)?;
         let walls = walls_from_bdl(bdl, &id_maps)?;
-        let (windows, shades) = windows_and_shades_from_bdl(bdl, &walls, &id_maps);
+        let (windows, shades) = windows_and_shades_from_bdl(bdl, &walls, &id_maps)?;
         let thermal_bridges = thermal_bridges_from_bdl(bdl);
 
         // Completa metadatos desde ctehexml y el bdl
@@ -316,21 +316,24 @@ fn windows_and_shades_from_bdl(
     bdl: &Data,
     walls: &[Wall],
     id_maps: &IdMaps,
-) -> (Vec<Window>, Vec<Shade>) {
+) -> Result<(Vec<Window>, Vec<Shade>), Error> {
     //TODO: falta por trasladar la definición de lamas (louvres)
     let mut windows = vec![];
     let mut shades = vec![];
 
     for win in &bdl.windows {
         let id = uuid_from_obj(win);
-        let wall = walls.iter().find(|w| w.name == win.wall).unwrap();
+        let wall = walls
+            .iter()
+            .find(|w| w.name == win.wall)
+            .ok_or_else(|| format_err!("Muro {} del hueco {} no encontrado", win.wall, win.name))?;
 
         // Definición del hueco
         let window = Window {
             id,
             name: win.name.clone(),
-            cons: id_maps.wincons_id(&win.cons).unwrap_or_default(),
-            wall: id_maps.wall_id(&win.wall).unwrap_or_default(),
+            cons: id_maps.wincons_id(&win.cons)?,
+            wall: id_maps.wall_id(&win.wall)?,
             geometry: WinGeom {
                 position: Some(point![win.x, win.y]),
                 width: win.width,
@@ -423,10 +426,10 @@ fn windows_and_shades_from_bdl(
     }
 
     // Añade sombras independientes
-    let othershades = shades_from_bdl(bdl);
+    let othershades = shades_from_bdl(bdl)?;
     shades.extend_from_slice(&othershades);
 
-    (windows, shades)
+    Ok((windows, shades))
 }
 
 /// Construye puentes térmicos de la envolvente a partir de datos BDL
@@ -469,100 +472,105 @@ fn thermal_bridges_from_bdl(bdl: &Data) -> Vec<ThermalBridge> {
 /// - por vértices
 /// Ver BDL Topics p.158
 /// Convertimos todos los casos a geometría como la de los muros: position + tilt + azimuth + Pol2D
-fn shades_from_bdl(bdl: &Data) -> Vec<Shade> {
+fn shades_from_bdl(bdl: &Data) -> Result<Vec<Shade>, Error> {
     bdl.shadings
         .iter()
-        .filter_map(|sh| {
-            let id = uuid_from_obj(sh);
-            let name = sh.name.clone();
-            let global_deviation = global_deviation_from_north(bdl);
-            let (position, tilt, azimuth, polygon) = if let Some(geom) = sh.geometry.as_ref() {
-                // 1. Sombras definidas por posición, ancho y alto
-                // Sombras de área nula
-                if geom.height.abs() < 1e-3 && geom.height.abs() < 1e-3 {
-                    return None;
-                };
-                // El origen simplemente se traslada la desviación global (en sentido inverso a los ángulos en coordenadas (X,-Y))
-                let position = Some(
-                    Rotation3::from_axis_angle(&Vector3::z_axis(), -global_deviation.to_radians())
-                        * point![geom.x, geom.y, geom.z],
-                );
-                // El azimuth acumula la orientación de la sombra y la desviación del norte (tienen el mismo criterio de giro)
-                let azimuth = fround2(orientation_bdl_to_52016(geom.azimuth + global_deviation));
-                let polygon = vec![
-                    point![0.0, 0.0],
-                    point![geom.width, 0.0],
-                    point![geom.width, geom.height],
-                    point![0.0, geom.height],
-                ];
-
-                (position, geom.tilt, azimuth, polygon)
-            } else if let Some(vertices) = sh.vertices.as_ref() {
-                // 2. Sombras definidas por vértices
-                // Aquí tenemos que tener cuidado con las operaciones de giros ya que tienen criterios de medición distintos
-                let normal = (vertices[1] - vertices[0]).cross(&(vertices[2] - vertices[1]));
-                // XXX: Esto se podría evitar iterando hasta encontrar dos segmentos que no sean colineales
-                // Basta con ir probando los siguientes tres puntos
-                // https://community.khronos.org/t/how-to-calculate-polygon-normal/49265/3
-                assert!(
-                    normal.magnitude() > 10.0 * f32::EPSILON,
-                    "Polígono con puntos colineales"
-                );
-                let tilt = Vector3::z_axis().angle(&normal);
-                // Azimuth del elemento de sombra (¡Atención! Criterio EN S=0, E=+90, W=-90)
-                let shade_azimuth = if (tilt % std::f32::consts::PI).abs() > (10.0 * f32::EPSILON) {
-                    // No es una superficie horizontal y calculamos el azimuth (con el Sur) como el ángulo de -Y y la proyección horizontal de la normal
-                    Rotation2::rotation_between(&-Vector3::<f32>::y_axis().xy(), &normal.xy())
-                        .angle()
-                } else {
-                    // Es una superficie horizontal y el azimuth (con el Sur) se calcula como si estuviese vertical la superficie -> -Y -> +Z
-                    // XXX: Esto no lo tengo claro...
-                    Vector3::z_axis().angle(&normal)
-                };
-
-                // La desviación global gira en sentido negativo el origen (sentido horario)
-                let v0 = vertices[0];
-                let position = Some(
-                    Rotation3::from_axis_angle(&Vector3::z_axis(), -global_deviation.to_radians())
-                        * v0,
-                );
-
-                // El giro global produce un giro en sentido negativo (sentido horario) frente al azimuth de la sombra (antihorario)
-                let azimuth = fround2(normalize(
-                    shade_azimuth.to_degrees() - global_deviation,
-                    -180.0,
-                    180.0,
-                ));
-
-                // Trasladamos al primer vértice y luego deshacemos la inclinación / tilt (giro en x) y luego el azimut de la sombra (giro eje z)
-                // El azimuth derivado de la desviación global la transmitimos en el valor final de azimuth y la hemos incorporado en la posición
-                // así que no debemos descontarla aquí de la geometría de la sombra
-                let transform = Rotation3::from_axis_angle(&Vector3::x_axis(), -tilt)
-                    * Rotation3::from_axis_angle(&Vector3::z_axis(), -shade_azimuth)
-                    * Translation3::from(Point3::origin() - v0);
-                let polygon = vertices.iter().map(|p| (transform * p).xy()).collect();
-                (
-                    position,
-                    normalize(tilt.to_degrees(), 0.0, 360.0),
-                    azimuth,
-                    polygon,
-                )
-            } else {
-                panic!("Definición inesperada de elemento de sombra");
-            };
-
-            Some(Shade {
-                id,
-                name,
-                geometry: WallGeom {
-                    tilt,
-                    azimuth,
-                    position,
-                    polygon,
-                },
-            })
-        })
+        .filter_map(|sh| shade_from_bdl(sh, bdl).transpose())
         .collect()
+}
+
+/// Elemento de sombra a partir de su definición BDL (None para sombras de área nula)
+fn shade_from_bdl(sh: &bdl::Shading, bdl: &Data) -> Result<Option<Shade>, Error> {
+    let id = uuid_from_obj(sh);
+    let name = sh.name.clone();
+    let global_deviation = global_deviation_from_north(bdl);
+    let (position, tilt, azimuth, polygon) = if let Some(geom) = sh.geometry.as_ref() {
+        // 1. Sombras definidas por posición, ancho y alto
+        // Sombras de área nula
+        if geom.height.abs() < 1e-3 && geom.height.abs() < 1e-3 {
+            return Ok(None);
+        };
+        // El origen simplemente se traslada la desviación global (en sentido inverso a los ángulos en coordenadas (X,-Y))
+        let position = Some(
+            Rotation3::from_axis_angle(&Vector3::z_axis(), -global_deviation.to_radians())
+                * point![geom.x, geom.y, geom.z],
+        );
+        // El azimuth acumula la orientación de la sombra y la desviación del norte (tienen el mismo criterio de giro)
+        let azimuth = fround2(orientation_bdl_to_52016(geom.azimuth + global_deviation));
+        let polygon = vec![
+            point![0.0, 0.0],
+            point![geom.width, 0.0],
+            point![geom.width, geom.height],
+            point![0.0, geom.height],
+        ];
+
+        (position, geom.tilt, azimuth, polygon)
+    } else if let Some(vertices) = sh.vertices.as_ref() {
+        // 2. Sombras definidas por vértices
+        // Aquí tenemos que tener cuidado con las operaciones de giros ya que tienen criterios de medición distintos
+        if vertices.len() < 3 {
+            bail!("Sombra {} definida con menos de tres vértices", sh.name);
+        }
+        let normal = (vertices[1] - vertices[0]).cross(&(vertices[2] - vertices[1]));
+        // XXX: Esto se podría evitar iterando hasta encontrar dos segmentos que no sean colineales
+        // Basta con ir probando los siguientes tres puntos
+        // https://community.khronos.org/t/how-to-calculate-polygon-normal/49265/3
+        if !(normal.magnitude() > 10.0 * f32::EPSILON) {
+            bail!("Sombra {} con polígono de puntos colineales", sh.name);
+        }
+        let tilt = Vector3::z_axis().angle(&normal);
+        // Azimuth del elemento de sombra (¡Atención! Criterio EN S=0, E=+90, W=-90)
+        let shade_azimuth = if (tilt % std::f32::consts::PI).abs() > (10.0 * f32::EPSILON) {
+            // No es una superficie horizontal y calculamos el azimuth (con el Sur) como el ángulo de -Y y la proyección horizontal de la normal
+            Rotation2::rotation_between(&-Vector3::<f32>::y_axis().xy(), &normal.xy())
+                .angle()
+        } else {
+            // Es una superficie horizontal y el azimuth (con el Sur) se calcula como si estuviese vertical la superficie -> -Y -> +Z
+            // XXX: Esto no lo tengo claro...
+            Vector3::z_axis().angle(&normal)
+        };
+
+        // La desviación global gira en sentido negativo el origen (sentido horario)
+        let v0 = vertices[0];
+        let position = Some(
+            Rotation3::from_axis_angle(&Vector3::z_axis(), -global_deviation.to_radians())
+                * v0,
+        );
+
+        // El giro global produce un giro en sentido negativo (sentido horario) frente al azimuth de la sombra (antihorario)
+        let azimuth = fround2(normalize(
+            shade_azimuth.to_degrees() - global_deviation,
+            -180.0,
+            180.0,
+        ));
+
+        // Trasladamos al primer vértice y luego deshacemos la inclinación / tilt (giro en x) y luego el azimut de la sombra (giro eje z)
+        // El azimuth derivado de la desviación global la transmitimos en el valor final de azimuth y la hemos incorporado en la posición
+        // así que no debemos descontarla aquí de la geometría de la sombra
+        let transform = Rotation3::from_axis_angle(&Vector3::x_axis(), -tilt)
+            * Rotation3::from_axis_angle(&Vector3::z_axis(), -shade_azimuth)
+            * Translation3::from(Point3::origin() - v0);
+        let polygon = vertices.iter().map(|p| (transform * p).xy()).collect();
+        (
+            position,
+            normalize(tilt.to_degrees(), 0.0, 360.0),
+            azimuth,
+            polygon,
+        )
+    } else {
+        bail!("Definición inesperada de elemento de sombra {}", sh.name);
+    };
+
+    Ok(Some(Shade {
+        id,
+        name,
+        geometry: WallGeom {
+            tilt,
+            azimuth,
+            position,
+            polygon,
+        },
+    }))
 }
 
 /// Construcciones de muros y huecos y materiales a partir de datos BDL
